@@ -104,6 +104,8 @@ def run(ctx):
     r13 = ctx.rule("C01.R13", "LAYOUT: the channel summary every model configuration is built on (interpreted, shared with C12.R8): channels sorted, bin counts and slices keyed and tiling in THAT order whatever the listing order", "LAYOUT", floor=1)
     from .c12 import _summary_interpreted
     _summary_interpreted(ctx, r13, repo)
+    r14 = ctx.rule("C01.R14", "FRESH: _ModelConfig.__init__ interpreted for a first model, every container reachable from that configuration then altered in place (a user tweaking `model.config.modifier_settings` to describe a variant), and interpreted again: the second default-constructed configuration carries the documented default interpolation codes (normsys code4, histosys code4p) and shares no container with the first; settings passed explicitly arrive as given", "FRESH", floor=3)
+    _fresh_defaults(ctx, r14, repo)
     r11 = ctx.rule("C01.R11", "BUILD: _nominal_and_modifiers_from_spec interpreted END TO END with the real nominal builder and all seven modifier builders on a 3-channel (listed out of order) x 2-sample specification in which every modifier type occurs once or twice and one sample is absent from a channel: nominal rates and every builder tensor follow config.channels x config.samples; a cell is masked in exactly where the sample declares the modifier; undeclared cells carry the neutral data (nominal / 1 / 0); each applier receives its own type's modifiers, the configuration, its own builder data and the batch size", "BUILD", floor=9)
     _build_end_to_end(ctx, r11, reg)
 
@@ -893,3 +895,93 @@ def pipeline_world(repo, reg, rec):
         w.add_class(b)
         mset[key] = (PyFunc(lambda a, k, b=b: w.new(b, a, k), b.name), PyFunc(lambda a, k, key=key: (rec["appliers"].__setitem__(key, (a, k)) or Obj(f"applier_{key}")), cl.name))
     return w, mset
+
+
+def _fresh_defaults(ctx, rid, repo):
+    """Two default-constructed model configurations in one process share nothing a user can reach and alter."""
+    from ..alg import Obj, Poly, RaisedInFragment, Undecided
+    from ..objmodel import Instance, World
+    mc = repo.cls(PDF, "_ModelConfig")
+    mix = repo.cls("src/pyhf/mixins.py", "_ChannelSummaryMixin")
+    init = mc.methods.get("__init__")
+    if init is None:
+        ctx.unrecognised(rid, mc, "_ModelConfig.__init__", "not found")
+        return
+    ctx.touch(init)
+    at = Poly.atom
+
+    def spec():
+        return {"channels": [{"name": "SR", "samples": [{"name": "bkg", "data": [at("b0"), at("b1")], "modifiers": [{"name": "sys", "type": "normsys", "data": None}, {"name": "sys", "type": "histosys", "data": None}]}]}]}
+
+    def poison(v, seen):
+        if id(v) in seen:
+            return
+        seen.add(id(v))
+        if isinstance(v, dict):
+            for x in list(v.values()):
+                poison(x, seen)
+            for k in list(v):
+                if isinstance(v[k], str):
+                    v[k] = "<altered>"
+            v["<altered>"] = "<altered>"
+        elif isinstance(v, list):
+            for x in v:
+                poison(x, seen)
+            v.append("<altered>")
+        elif isinstance(v, set):
+            v.add("<altered>")
+
+    def containers(v, acc):
+        if isinstance(v, (dict, list, set)) and id(v) not in acc:
+            acc[id(v)] = v
+            for x in (v.values() if isinstance(v, dict) else v):
+                containers(x, acc)
+        return acc
+
+    def has_poison(v):
+        if isinstance(v, str):
+            return v == "<altered>"
+        if isinstance(v, dict):
+            return any(has_poison(k) or has_poison(x) for k, x in v.items())
+        if isinstance(v, (list, tuple, set)):
+            return any(has_poison(x) for x in v)
+        return False
+
+    want = {"normsys": {"interpcode": "code4"}, "histosys": {"interpcode": "code4p"}}
+    try:
+        w = World({"__strict__": True}, module_env={"log": Obj("log"), "exceptions": Obj("exceptions")})
+        w.add_class(mix).add_class(mc)
+        first = Instance(mc)
+        w.call_method(first, "__init__", [spec()], {})
+        s1 = first.attrs.get("modifier_settings")
+        if s1 != want:
+            ctx.violated(rid, init, "default modifier settings", "a configuration built without modifier_settings does not carry the documented default interpolation codes", expected=str(want), found=str(s1)[:200])
+            return
+        ctx.holds(rid, f"{PDF}::_ModelConfig.__init__ [first model, defaults]", str(want))
+        owned = {}
+        for v in first.attrs.values():
+            containers(v, owned)
+        seen = set()
+        for v in list(first.attrs.values()):
+            poison(v, seen)
+        second = Instance(mc)
+        w.call_method(second, "__init__", [spec()], {})
+        s2 = second.attrs.get("modifier_settings")
+        shared = [k for k, v in second.attrs.items() if any(id(x) in owned for x in containers(v, {}).values())]
+        if s2 != want or has_poison(s2):
+            ctx.violated(rid, init, "default modifier settings of a second model", "after the settings object of an earlier model was altered in place, a model built WITHOUT modifier_settings no longer uses the documented default interpolation codes: the default is one shared object handed out to every configuration", expected=str(want), found=str(s2)[:200])
+        elif shared:
+            ctx.violated(rid, init, f"second configuration shares `{shared[0]}` with the first", f"attribute `{shared[0]}` of a default-constructed configuration is (or contains) the very container the previous configuration holds: altering one model's configuration changes the other's", expected="containers created per configuration", found=f"shared: {shared}")
+        else:
+            ctx.holds(rid, f"{PDF}::_ModelConfig.__init__ [second model after the first one's containers were altered]", "defaults intact, no shared container")
+        mine = {"normsys": {"interpcode": "code1"}, "histosys": {"interpcode": "code0"}}
+        third = Instance(mc)
+        w.call_method(third, "__init__", [spec()], {"modifier_settings": mine})
+        if third.attrs.get("modifier_settings") == {"normsys": {"interpcode": "code1"}, "histosys": {"interpcode": "code0"}}:
+            ctx.holds(rid, f"{PDF}::_ModelConfig.__init__ [explicit modifier_settings]", "arrive as given")
+        else:
+            ctx.violated(rid, init, "explicit modifier settings", "modifier_settings passed by the caller are not what the configuration reports", expected=str(mine), found=str(third.attrs.get("modifier_settings"))[:200])
+    except RaisedInFragment as e:
+        ctx.violated(rid, init, "_ModelConfig.__init__", f"raises {e.exc_name} on a well-formed specification")
+    except (Undecided, KeyError, TypeError, ValueError, IndexError, AttributeError) as e:
+        ctx.unrecognised(rid, init, "_ModelConfig.__init__", f"not interpretable: {type(e).__name__}: {e}")
